@@ -20,7 +20,7 @@ import re
 
 from ..astutil import dotted, src, walk_local, local_assignments, calls, dominating_guards, preceding_exit_guards, op_test, conjuncts
 from ..dispatch import dispatcher, operand_slots, exact_arm, binary_ops, unary_ops
-from ..logic import formula, And, Not, atom, TRUE, counterexample
+from ..logic import formula, And, Not, atom, TRUE, counterexample, implies
 from ..report import AnalysisError
 
 # polynomial semantics of the reduction kinds: degree when every operand is a plain variable container
@@ -138,7 +138,7 @@ def implied(pf, pred, positive=True):
     for a in pf.atoms():
         if pred(a):
             goal = atom(a) if positive else Not(atom(a))
-            if counterexample(pf, goal) is None:
+            if implies(pf, goal):
                 return True
     return False
 
